@@ -54,9 +54,6 @@ Definition slot_query (signed : nat -> list Q) (t : option entry) (o : opts) : r
   | None => slot_compute signed t o
   end.
 
-(* an in-place modifier (FEMData._clear_query_caches) pops the three names *)
-Definition drop_slot (t : option entry) : option entry := None.
-
 (* a history of calls on one object: answers and final table *)
 Fixpoint slot_run (signed : nat -> list Q) (t : option entry) (h : list opts) : list res * option entry :=
   match h with
@@ -70,6 +67,10 @@ Fixpoint slot_run (signed : nat -> list Q) (t : option entry) (h : list opts) : 
    of a mesh) *)
 Definition user_part (t : option entry) : option entry :=
   match t with Some e => match e_opts e with None => t | Some _ => None end | None => None end.
+(* an in-place modifier (FEMData._clear_query_caches, _elements_changed, _nodes_changed) pops
+   the three names - but only entries the calculate_element_* methods stored (they carry
+   options); a variable of that name the user stored is data and stays *)
+Definition drop_slot (t : option entry) : option entry := user_part t.
 Definition fresh_answer (signed : nat -> list Q) (t0 : option entry) (o : opts) : res :=
   match user_part t0 with
   | Some u => validate o (e_vals u)
@@ -84,6 +85,24 @@ Definition valid_table (signed : nat -> list Q) (t : option entry) : Prop :=
               | None => True
               | Some o => validate o (signed (o_mode o)) = Val (e_vals e)
               end
+  end.
+
+(* histories of calls and in-place modifications; a modification drops the
+   library's entry and may change what the kernels compute (signed) *)
+Inductive mop := MCall (o : opts) | MModify (signed' : nat -> list Q).
+Fixpoint run_m (signed : nat -> list Q) (t : option entry) (h : list mop) : list res * option entry :=
+  match h with
+  | [] => ([], t)
+  | MCall o :: r => let '(v, t') := slot_query signed t o in
+                    let '(vs, t'') := run_m signed t' r in (v :: vs, t'')
+  | MModify s :: r => run_m s (drop_slot t) r
+  end.
+(* the answers of freshly built equal meshes along the same history *)
+Fixpoint spec_m (signed : nat -> list Q) (t0 : option entry) (h : list mop) : list res :=
+  match h with
+  | [] => []
+  | MCall o :: r => fresh_answer signed t0 o :: spec_m signed t0 r
+  | MModify s :: r => spec_m s t0 r
   end.
 
 (* executable comparison helpers for the correspondence check *)
@@ -116,11 +135,14 @@ Fixpoint trace_eqb (a b : list (res * option entry)) : bool :=
   | _, _ => false
   end.
 
-(* histories with in-place modifications in between (correspondence check) *)
-Inductive sop := Call (o : opts) | Drop.
+(* histories with in-place modifications in between (correspondence check):
+   Drop = a modifier that leaves the values as they are (remove_useless_nodes),
+   Mod s = one after which the kernels compute s (connectivity assignment) *)
+Inductive sop := Call (o : opts) | Drop | Mod (s : nat -> list Q).
 Fixpoint slot_trace_ops (signed : nat -> list Q) (t : option entry) (h : list sop) : list (res * option entry) :=
   match h with
   | [] => []
   | Call o :: r => let p := slot_query signed t o in p :: slot_trace_ops signed (snd p) r
   | Drop :: r => (Val [], drop_slot t) :: slot_trace_ops signed (drop_slot t) r
+  | Mod s :: r => (Val [], drop_slot t) :: slot_trace_ops s (drop_slot t) r
   end.
